@@ -600,7 +600,7 @@ def run_e2e(ctx, res, jinja2, dist, nontrivial):
 
 
 # ---------------------------------------------------------------------------------------------------------------------------
-BLOCK_MODES = ["static", "select", "block", "volatile", "volatile_on"]
+BLOCK_MODES = ["static", "select", "block", "volatile", "volatile_on", "static:async", "volatile:async"]
 
 
 def run_filter_blocks(ctx, res, jinja2, dist, nontrivial):
@@ -649,12 +649,14 @@ def run_filter_blocks(ctx, res, jinja2, dist, nontrivial):
     renders = 0
     envs = {}
     for mode in BLOCK_MODES:
+        akw = {"enable_async": True} if mode.endswith(":async") else {}
         if mode == "select":
             envs[mode] = jinja2.Environment(loader=jinja2.DictLoader({}), autoescape=jinja2.select_autoescape(enabled_extensions=("html",), default=False))
         else:
-            envs[mode] = jinja2.Environment(loader=jinja2.DictLoader({}), autoescape=mode in ("static", "volatile_on"))
+            envs[mode] = jinja2.Environment(loader=jinja2.DictLoader({}), autoescape=mode in ("static", "volatile_on", "static:async"), **akw)
     wraps = {"static": ("", ""), "select": ("", ""), "block": ("{% autoescape true %}", "{% endautoescape %}"),
-             "volatile": ("{% autoescape flag %}", "{% endautoescape %}"), "volatile_on": ("{% autoescape flag %}", "{% endautoescape %}")}
+             "volatile": ("{% autoescape flag %}", "{% endautoescape %}"), "volatile_on": ("{% autoescape flag %}", "{% endautoescape %}"),
+             "static:async": ("", ""), "volatile:async": ("{% autoescape flag %}", "{% endautoescape %}")}
     for i, ((f, targs, b, data), rep) in enumerate(zip(jobs, replies)):
         if rep[0] == "oom":
             continue
@@ -662,7 +664,7 @@ def run_filter_blocks(ctx, res, jinja2, dist, nontrivial):
             want = "raised"
         else:
             want = rep[1][1] if str(rep[1][0]) == "markup" else esc[esc_idx[i]][1][0]
-        for mode in (BLOCK_MODES if not ctx.quick else [BLOCK_MODES[i % 5], "volatile"]):
+        for mode in (BLOCK_MODES if not ctx.quick else [BLOCK_MODES[i % len(BLOCK_MODES)], "volatile"]):
             for form, src in (("filter-block", "{% filter " + f + "(" + targs + ") %}" + b + "{% endfilter %}"),
                               ("filtered-set-block", "{% set v | " + f + "(" + targs + ") %}" + b + "{% endset %}{{ v }}")):
                 full = wraps[mode][0] + src + wraps[mode][1]
@@ -682,7 +684,7 @@ def run_filter_blocks(ctx, res, jinja2, dist, nontrivial):
                 if out != want:
                     res.violate(f"C24:{form}:{f}", f"{full!r} with w={data['w']!r} y={data['y']!r} ({mode}) renders {out!r}; contract (filter applied to the "
                                 f"Markup body, plain arguments escaped, result escaped on output) {want!r}",
-                                {"src": full, "data": data, "mode": mode, "autoescape_default": mode in ("static", "volatile_on")})
+                                {"src": full, "data": data, "mode": mode, "autoescape_default": mode in ("static", "volatile_on", "static:async")})
     return renders
 
 
@@ -694,8 +696,8 @@ def run_envways(ctx, res, jinja2, dist):
     rng = ctx.rng("envways")
     data = {"x": rstr(rng, 3), "y": rstr(rng, 2)}
     n = 0
-    for sc in W.plan(rng, ctx.pick(10, 200)):
-        for way, i, kind, name, out, fresh in W.execute(jinja2, sc, data):
+    for k, sc in enumerate(W.plan(rng, ctx.pick(10, 200))):
+        for way, i, kind, name, out, fresh in W.execute(jinja2, sc, data, ["sync", "async:render", "async:render_async"][k % 3]):
             n += 1
             dist["envway"] = dist.get("envway", 0) + 1
             if out != fresh:
